@@ -69,6 +69,8 @@ type recOp struct {
 	MaxB    int    `json:"maxb"`
 	LimitMs int    `json:"limit_ms"`
 	PruneMs int    `json:"prune_ms"`
+	// RefreshMs > 0 enables the refresh loop: objects Done for that long are marked Refreshing and updated again
+	RefreshMs int `json:"refresh_ms"`
 	Kind    string `json:"kind"`
 	K       int    `json:"k"`
 	N       int    `json:"n"`
@@ -108,14 +110,21 @@ type recState struct {
 	// cmu guards failQ, inject, ncalls and target: the script goroutine and the reconciler's operations
 	// run concurrently inside the bubble
 	cmu sync.Mutex
+	// commitMu: see emit
+	commitMu sync.RWMutex
 }
 
 func (st *recState) now() int { return int(time.Since(st.start) / time.Millisecond) }
 
+// emit logs an event.  A commit is logged by the committing goroutine between the hooks commit.rootlocked and
+// commit.stored while it holds commitMu: a goroutine that has already read the new root (readers do not take the
+// root mutex) therefore cannot log anything before the commit it has seen is in the log.
 func (st *recState) emit(ev Ev) {
+	st.commitMu.RLock()
 	st.mu.Lock()
 	st.log.Emit(ev)
 	st.mu.Unlock()
+	st.commitMu.RUnlock()
 }
 
 func kindOf(s reconciler.Status) string { return s.Kind.String() }
@@ -134,7 +143,15 @@ func (st *recState) pendingObj(id uint64, ver int, old *recObj) *recObj {
 
 // onCommit runs at the linearization point of every commit (hook commit.stored, root mutex held).
 func (st *recState) onCommit(point string) {
-	if point != "commit.stored" || st.table == nil {
+	if point == "commit.rootlocked" {
+		st.commitMu.Lock()
+		return
+	}
+	if point != "commit.stored" {
+		return
+	}
+	defer st.commitMu.Unlock()
+	if st.table == nil {
 		return
 	}
 	rt := st.db.ReadTxn()
@@ -172,7 +189,10 @@ func (st *recState) onCommit(point string) {
 		by = "user"
 	}
 	init, _ := st.table.Initialized(rt)
-	st.emit(Ev{"op": "commit", "by": by, "t": st.now(), "rev": int(rev), "changes": changes, "init": init})
+	// (commitMu is held by this goroutine: log directly)
+	st.mu.Lock()
+	st.log.Emit(Ev{"op": "commit", "by": by, "t": st.now(), "rev": int(rev), "changes": changes, "init": init})
+	st.mu.Unlock()
 }
 
 // userWrite performs a user write; it may be called from the driver goroutine or from inside Update.
@@ -331,7 +351,7 @@ func runRecScript(t *testing.T, sc Script, log *Log) {
 		}
 		opts := []reconciler.Option{
 			reconciler.WithRetry(time.Duration(cfg.MinB)*time.Millisecond, time.Duration(cfg.MaxB)*time.Millisecond),
-			reconciler.WithRefreshing(0, nil),
+			reconciler.WithRefreshing(time.Duration(cfg.RefreshMs)*time.Millisecond, nil),
 			reconciler.WithRoundLimits(cfg.Round, rate.NewLimiter(rate.Every(time.Duration(cfg.LimitMs)*time.Millisecond), 1)),
 		}
 		if cfg.PruneMs > 0 {
@@ -389,7 +409,7 @@ func runRecScript(t *testing.T, sc Script, log *Log) {
 		st.start = time.Now()
 		log.Begin()
 		st.emit(Ev{"op": "config", "round": cfg.Round, "batch": cfg.Batch, "minb": cfg.MinB, "maxb": cfg.MaxB,
-			"limit": cfg.LimitMs, "prune": cfg.PruneMs, "idle": cfg.Idle})
+			"limit": cfg.LimitMs, "prune": cfg.PruneMs, "idle": cfg.Idle, "refresh": cfg.RefreshMs})
 		ctx, cancel := context.WithCancel(context.Background())
 		for _, raw := range sc.Ops[1:] {
 			var op recOp
